@@ -599,7 +599,8 @@ fn wrap_inner(c: &WCase, st: &mut Stats) -> Result<(), String> {
             }
             WOp::Credit { alloc, consume } => {
                 let in_flight = tx - peer_fwd;
-                let eat = (*consume as u64 * (in_flight + 1)) >> 16;
+                // 65535 = everything received so far has been consumed
+                let eat = if *consume == 65535 { in_flight } else { (*consume as u64 * (in_flight + 1)) >> 16 };
                 let before = peer_fwd;
                 peer_fwd += eat;
                 if before >> 32 != peer_fwd >> 32 {
@@ -730,8 +731,39 @@ fn wop() -> impl Strategy<Value = WOp> {
     ]
 }
 
+/// `alloc` argument of `WOp::Credit` that makes the peer advertise a window of exactly `w` (< 100000) bytes.
+fn alloc_for(w: u32) -> u32 {
+    (0..8).map(|r| w * 8 + r).find(|a| a % 5 == 4).unwrap()
+}
+
+/// Brings the transmit counter to 2^32 - `below` with everything acknowledged, then makes the peer
+/// advertise a window of `w` bytes.
+fn near_wrap_prefix(below: u32, w: u32) -> Vec<WOp> {
+    let mut ops = vec![WOp::Credit { alloc: 0, consume: 0 }];
+    for _ in 0..15 {
+        ops.push(WOp::Send(BIG as u32 - 1));
+        ops.push(WOp::Credit { alloc: 0, consume: 65535 });
+    }
+    ops.push(WOp::Send(BIG as u32 - 1 - below));
+    ops.push(WOp::Credit { alloc: alloc_for(w), consume: 65535 });
+    ops
+}
+
+fn wop_small() -> impl Strategy<Value = WOp> {
+    prop_oneof![
+        1 => (0u32..1000).prop_map(WOp::Forward),
+        8 => (0u32..3000).prop_map(WOp::Send),
+        4 => ((1u32..3000).prop_map(alloc_for), prop_oneof![Just(65535u16), Just(0u16), any::<u16>()]).prop_map(|(alloc, consume)| WOp::Credit { alloc, consume }),
+        1 => Just(WOp::Observe),
+    ]
+}
+
 pub fn wrap_strategy() -> impl Strategy<Value = WCase> {
-    prop::collection::vec(wop(), 0..60).prop_map(|ops| WCase { ops })
+    prop_oneof![
+        2 => prop::collection::vec(wop(), 0..60).prop_map(|ops| WCase { ops }),
+        // start just below the wrap of the transmit counter with a small window
+        1 => (1u32..4000, 1u32..3000, prop::collection::vec(wop_small(), 1..30)).prop_map(|(below, w, ops)| WCase { ops: near_wrap_prefix(below, w).into_iter().chain(ops).collect() }),
+    ]
 }
 
 #[derive(Clone, Debug, Serialize, Deserialize)]
@@ -774,6 +806,16 @@ pub fn run(ctx: &Ctx) -> Report {
         ops.push(WOp::Observe);
         items.push(Item::Wrap(WCase { ops }));
     }
+    // deterministic runs with a *tight* window while the transmit counter has wrapped and the
+    // peer's forward counter has not: bytes in flight straddle 2^32, then sends just inside and
+    // just outside the remaining credit
+    for &w in &[64u32, 1000, 4096, 99_999] {
+        for &a in &[1u32, w / 2, w - 1] {
+            for &extra in &[0u32, 1, a] {
+                items.push(Item::Wrap(WCase { ops: near_wrap_prefix(16, w).into_iter().chain([WOp::Send(a - 1), WOp::Send((w - a + extra).max(1) - 1), WOp::Observe, WOp::Credit { alloc: alloc_for(w), consume: 30_000 }, WOp::Send(w / 3), WOp::Send(w - 1)]).collect() }));
+            }
+        }
+    }
     let (st, mut failure) = run_items(ctx, "items", items, |it: &Item, st| match it {
         Item::Wrap(w) => check_wrap(w, st, &known),
     });
@@ -793,7 +835,7 @@ pub fn run(ctx: &Ctx) -> Report {
         failure,
         info: PartInfo {
             level: "exploration",
-            rule: "(a) proptest histories on VsockConnectionManager (capacity 1..=8192, RX buffer 64/512/65580, active and passive open, all transports and device policies): send, recv(n), peer data within the credit derived from the last header the peer saw (any packetisation), peer credit updates that grow, shrink (below the bytes in flight) or zero the window, credit requests, update_credit, poll. The reference peer checks every transmitted header (addressing, len, type, buf_alloc = capacity, fwd_cnt = bytes read), the credit invariant on every data packet, a single CREDIT_REQUEST per refusal, that advertised credit never exceeds real free space, and end-to-end stream equality after a final drain. (b) ConnectionInfo + VirtIOSocket driven directly with steps of up to 2^32-1 forwarded bytes and 256 MiB sends under a non-copying Hal, so that tx, fwd and peer counters cross 2^32 within tens of operations (deterministic runs + proptest). Non-trivial = a send refused for credit and later accepted, a receive ring-buffer wrap, or a counter crossing 2^32. distinct = (transport, capacity, op kinds/outcomes).",
+            rule: "(a) proptest histories on VsockConnectionManager (capacity 1..=8192, RX buffer 64/512/65580, active and passive open, all transports and device policies): send, recv(n), peer data within the credit derived from the last header the peer saw (any packetisation), peer credit updates that grow, shrink (below the bytes in flight) or zero the window, credit requests, update_credit, poll. The reference peer checks every transmitted header (addressing, len, type, buf_alloc = capacity, fwd_cnt = bytes read), the credit invariant on every data packet, a single CREDIT_REQUEST per refusal, that advertised credit never exceeds real free space, and end-to-end stream equality after a final drain. (b) ConnectionInfo + VirtIOSocket driven directly with steps of up to 2^32-1 forwarded bytes and 256 MiB sends under a non-copying Hal, so that tx, fwd and peer counters cross 2^32 within tens of operations (deterministic runs + proptest), including runs that start just below the wrap of the transmit counter with a tight window, so that bytes in flight straddle 2^32 while sends just inside / just outside the remaining credit are made. Non-trivial = a send refused for credit and later accepted, a receive ring-buffer wrap, or a counter crossing 2^32. distinct = (transport, capacity, op kinds/outcomes).",
             assumptions: vec!["capacity 0 is not generated (a zero-byte ring buffer cannot receive and the crate's modulo would divide by zero)".into(), "the peer never claims to have consumed more than was sent".into()],
             exhaustive: false,
             extra: json!({}),
